@@ -64,6 +64,13 @@ func checkC13(rep *core.Report) {
 			checkWorkerCounts(rep, r2, r3, p)
 		}
 	}
+	// ---- R13.6: premise shared with C12: two in-flight datagrams never share a buffer ----
+	r6 := rep.Rule("R13.6", "premise (shared with C12): a datagram's receive buffer is released at most once per iteration and never used after release", 4)
+	for _, p := range pipes {
+		if p.worker != nil && p.recv != nil {
+			checkReleaseDiscipline(prog, r6, r6, p.worker, p.recv, p.decode)
+		}
+	}
 	// ---- R13.4 / R13.5 over the whole program ----
 	for _, fn := range prog.RepoFuncs() {
 		allInstrs(fn, func(ins ssa.Instruction) {
